@@ -30,13 +30,31 @@ def limits_case(spec):
         base = {s for _, s in base}
         res['nontrivial'] = bool(base)
         n_less = 0
+        lim0 = cv.limits_of(case.cfg)
+        ctx_cache = {}
+
+        def ctx_mech(extra):
+            """KF-CTX attribution of peptides that appear only under limits / retries: graphs built under other limits have
+            other node boundaries, and context-dependent cleavage sites are evaluated per node (known finding). Pepsin: always
+            (its five-residue context); other context rules: only if EVERY derivation of each peptide needs such a site."""
+            if case.cfg['rule'].startswith('pepsin'):
+                return 'KF-CTX'
+            if not lim0.has_context():
+                return None
+            try:
+                if 'r' not in ctx_cache:
+                    ctx_cache['r'] = cv.oracle_sets(case, lim=lim0.mixed_copy('robust'))['may']
+                    ctx_cache['m'] = cv.oracle_sets(case, lim=lim0.mixed_copy('mixed'))['may']
+            except OverflowError:
+                return None
+            return 'KF-CTX' if all(p not in ctx_cache['r'] and p in ctx_cache['m'] for p in extra) else None
         for i, (mv, av) in enumerate(LIMIT_SETTINGS):
             fa, _ = cvmon.execute(case, wd, paths, out=f'l{i}.fasta', max_variants_per_node=mv,
                                   additional_variants_per_misc=av)
             got = {s for _, s in fa}
             res['counters']['limit_runs'] = res['counters'].get('limit_runs', 0) + 1
             if not got <= base:
-                res['violations'].append({'kind': 'limits-invent-peptides',
+                res['violations'].append({'kind': 'limits-invent-peptides', 'mech': ctx_mech(got - base),
                                           'msg': f'max_variants_per_node={mv} additional={av}: {sorted(got - base)[:5]} '
                                                  f'not in the unlimited output'})
             n_less += got < base
@@ -60,7 +78,7 @@ def limits_case(spec):
                 got = {s for _, s in fa}
                 res['counters']['timeout_runs'] = res['counters'].get('timeout_runs', 0) + 1
                 if not got <= base:
-                    res['violations'].append({'kind': 'retry-invents-peptides',
+                    res['violations'].append({'kind': 'retry-invents-peptides', 'mech': ctx_mech(got - base),
                                               'msg': f'{k} injected timeouts, limits {mv}/{av}, attempts={attempts["params"]}: '
                                                      f'{sorted(got - base)[:5]} not in the unlimited output'})
                 ps = attempts['params']
@@ -138,7 +156,7 @@ def check(rep, tier, seed, specs=None, n_override=None):
             rep.add_violation('spurious-peptides', f"{len(r['spurious'])} output peptides are not realizable: {r['spurious'][:6]}",
                               spec, detail=r.get('describe'))
         for v in r.get('violations') or []:
-            rep.add_violation(v['kind'], v['msg'], spec, detail=r.get('describe'))
+            rep.add_violation(v['kind'], v['msg'], spec, mech=v.get('mech'), detail=r.get('describe'))
     if lost:
         rep.inconclusive.append(f'{len(lost)} cases lost')
     for k in ('limit_runs', 'timeout_runs', 'exhaustion_runs'):
